@@ -201,7 +201,14 @@ func ParserValue(a any) bool {
 
 // ParserLeaf: a leaf as the parser builds it.
 func ParserLeaf(e *Expression) bool {
-	return e != nil && LeafOp(e.Op) && e.Right == nil && ParserValue(e.Left)
+	if e == nil || !LeafOp(e.Op) || e.Right != nil || !ParserValue(e.Left) {
+		return false
+	}
+	if e.Op == Literal {
+		return true
+	}
+	_, isStr := e.Left.(string) // patterns are text
+	return isStr
 }
 
 // ShapeP: the typing of every tree the shift-reduce parser can build.
@@ -212,7 +219,7 @@ func ShapeP(a any) bool {
 	}
 	switch e.Op {
 	case Literal, Wild, Regexp:
-		return e.Right == nil && ParserValue(e.Left)
+		return ParserLeaf(e)
 	case And, Or, Equals, Greater, Less, GreaterEq, LessEq:
 		return ShapeP(e.Left) && ShapeP(e.Right)
 	case Not, Must, MustNot, Boost, Fuzzy:
@@ -506,3 +513,29 @@ func LemmaDefaultFieldTerm(field string, v any) {}
 //@   ensures  ShapeP(e)
 
 func LemmaLeafParsed(e *Expression) {}
+
+// LemmaParsedWF: parser-built trees contain no typed-nil pointer (induction over the tree).
+//
+//@ func LemmaParsedWF
+//@   lemma
+//@   structural
+//@   props C10 C01
+//@   fuel 2 ShapeP=2 WF=2
+//@   requires ShapeP(a)
+//@   ensures  WF(a)
+
+func LemmaParsedWF(a any) {
+	e, ok := a.(*Expression)
+	if !ok || e == nil || LeafOp(e.Op) || e.Op == List {
+		return
+	}
+	LemmaParsedWF(e.Left)
+	if b, isB := e.Right.(*RangeBoundary); isB && b != nil {
+		LemmaParsedWF(b.Min)
+		LemmaParsedWF(b.Max)
+		return
+	}
+	if e.Right != nil {
+		LemmaParsedWF(e.Right)
+	}
+}
